@@ -83,12 +83,12 @@ def run_harness(scratch, h, log_dir, timeout_s, extra_args=(), tag=""):
     log = os.path.join(log_dir, h["name"] + tag + ".log")
     t0 = time.time()
     open(log, "w").close()
-    if h.get("recursion"):
+    if h.get("recursion") or h.get("loops"):
         # Per-function recursion bounds (CBMC --unwindset on the function identifiers). The identifiers are
         # read from the goto binary of a codegen-only pre-pass; the recursion unwinding assertions stay on,
         # so a recursion that really goes deeper than the bound is reported, not truncated.
         try:
-            uws = recursion_unwindset(scratch, cmd, tdir, h["recursion"], log, h)
+            uws = recursion_unwindset(scratch, cmd, tdir, h.get("recursion") or {}, log, h, h.get("loops") or {})
         except Exception as e:  # noqa
             uws = None
             with open(log, "a") as lf:
@@ -128,8 +128,10 @@ def run_harness(scratch, h, log_dir, timeout_s, extra_args=(), tag=""):
     return res
 
 
-def recursion_unwindset(scratch, cmd, tdir, limits, log, h=None):
-    """limits: {substring of the pretty function name: bound}. Returns the --unwindset argument."""
+def recursion_unwindset(scratch, cmd, tdir, limits, log, h=None, loops=None):
+    """limits: {substring of the pretty function name: recursion bound}; loops: {substring: {loop number: bound}}
+    (per-loop bounds, CBMC loop ids <function>.<n>; unwinding assertions stay on). Returns the --unwindset argument."""
+    loops = loops or {}
     pre = [c for c in cmd if c not in ("--no-unwinding-checks",)] + ["--only-codegen"]
     with open(log, "a") as lf:
         r = subprocess.run(pre, cwd=scratch, stdout=lf, stderr=subprocess.STDOUT, env=cargo_env(tdir, h),
@@ -154,6 +156,10 @@ def recursion_unwindset(scratch, cmd, tdir, limits, log, h=None):
         for sub, bound in limits.items():
             if sub in pretty:
                 entries.append("%s:%d" % (mangled, bound))
+        for sub, lb in loops.items():
+            if sub in pretty:
+                for n, bound in lb.items():
+                    entries.append("%s.%s:%d" % (mangled, n, bound))
     if not entries:
         raise RuntimeError("no function matched the recursion limits %r" % (limits,))
     with open(log, "a") as lf:
